@@ -223,6 +223,10 @@ def gen(ctx):
             add("cue-namelen-%s-%d" % (cont, ln), "cues", cont, [M.setcues_line("h0", cs)])
     for n in [0, 1, 2, 3, 10, 50, 100] + ([101, 1000, 2500] if thorough else []):
         add("cue-aiff-%d" % n, "cues", "aiff", [M.setcues_line("h0", cues(rng, n, names=True))])
+    for ln in (1, 2, 252, 253, 254, 255):      # AIFF marker names are pascal strings: every length up to the 255 characters SF_CUE_POINT.name holds (KF-C12-AIFF-CUE-NAME-254)
+        cs = cues(rng, 3, names=True)
+        cs[1] = cs[1][:6] + (text(rng, ln, ascii_only=True).replace(b" ", b"_"),)
+        add("cue-namelen-aiff-%d" % ln, "cues", "aiff", [M.setcues_line("h0", cs)])
     # 5. instrument
     for cont in ("wav", "wavex", "rifx"):
         for n in [0, 1, 2, 8, 15, 16]:
